@@ -63,12 +63,23 @@ func script(w *W) string {
 		fmt.Fprintf(&b, "spawn(function() use ($ch) {\n  for ($i = 0; $i < 3; $i++) {\n    __b(%d, \"isclosed\", \"\");\n    $c = $ch->isClosed();\n    __e(%d, $c);\n    __b(%d, \"len\", \"\");\n    $l = $ch->len();\n    $k = $ch->cap();\n    __e(%d, $l);\n  }\n});\n", id, id, id, id)
 		id++
 	}
+	if w.Twin {
+		tp, tc := id, id+1
+		_ = tc
+		fmt.Fprintf(&b, "$ch2 = new Channel(%d);\n", w.TwinCap)
+		fmt.Fprintf(&b, "spawn(function() use ($ch2) {\n")
+		for k := 0; k < 2; k++ {
+			fmt.Fprintf(&b, "  __b(%d, \"send\", \"twin-%d\");\n  $r = $ch2->send(\"twin-%d\");\n  __e(%d, $r);\n", tp, k, k, tp)
+		}
+		fmt.Fprintf(&b, "  __b(%d, \"close\", \"\");\n  $ch2->close();\n  __e(%d, \"ok\");\n});\n", tp, tp)
+		fmt.Fprintf(&b, "spawn(function() use ($ch2) {\n  while (true) {\n    __b(%d, \"recv\", \"\");\n    $v = $ch2->receive();\n    __e(%d, $v);\n    if ($v === null) { break; }\n  }\n});\n", tp+1, tp+1)
+	}
 	return b.String()
 }
 
 func execScript(t *testing.T, w *W, s hx.Sched) *hx.Outcome {
 	o := &hx.Outcome{}
-	ntasks := len(w.Producers) + len(w.Consumers) + w.Closers + w.Observers
+	ntasks := len(w.Producers) + len(w.Consumers) + w.Closers + w.Observers + 2
 	h := &hist{ops: make([][]op, ntasks)}
 	cur := make([]int, ntasks)
 	src := script(w)
@@ -102,7 +113,7 @@ func execScript(t *testing.T, w *W, s hx.Sched) *hx.Outcome {
 	})
 	data.ResetOutputWriter()
 	o.Res = res
-	evaluate(o, w, h.all(), res)
+	evaluateAll(o, w, h.all(), res, ntasks)
 	if sm, ok := o.Sample.(map[string]any); ok {
 		sm["script"] = src
 	}
